@@ -574,6 +574,134 @@ var rR13 = RuleRef{Name: "R13", Doc: "reply-kind provenance: line-framed reply c
 			}
 		}
 	}
+	// function values kept in a package-level table (map or slice initialised in the package's init) that only decoding
+	// functions consult belong to the decoding direction too
+	if rp := c.P.Pkg("resp"); rp != nil {
+		if initFn := rp.Func("init"); initFn != nil {
+			users := map[*ssa.Global][]*ssa.Function{}
+			for _, f := range c.P.allFuncs("resp") {
+				root := f
+				for root.Parent() != nil {
+					root = root.Parent()
+				}
+				if root == initFn {
+					continue
+				}
+				for _, b := range f.Blocks {
+					for _, in := range b.Instrs {
+						for _, op := range in.Operands(nil) {
+							if g, ok := (*op).(*ssa.Global); ok {
+								users[g] = append(users[g], f)
+							}
+						}
+					}
+				}
+			}
+			flowsTo := func(v ssa.Value) *ssa.Global {
+				seen := map[ssa.Value]bool{}
+				work := []ssa.Value{v}
+				for len(work) > 0 && len(seen) < 200 {
+					x := work[0]
+					work = work[1:]
+					if seen[x] || x.Referrers() == nil {
+						continue
+					}
+					seen[x] = true
+					for _, r := range *x.Referrers() {
+						switch y := r.(type) {
+						case *ssa.MapUpdate:
+							if y.Value == x {
+								work = append(work, y.Map)
+							}
+						case *ssa.Store:
+							if y.Val != x {
+								continue
+							}
+							if g, ok := y.Addr.(*ssa.Global); ok {
+								return g
+							}
+							a := y.Addr
+							for i := 0; i < 4; i++ {
+								switch z := a.(type) {
+								case *ssa.IndexAddr:
+									a = z.X
+									continue
+								case *ssa.FieldAddr:
+									a = z.X
+									continue
+								}
+								break
+							}
+							work = append(work, a)
+						case *ssa.Slice:
+							work = append(work, y)
+						case *ssa.MakeInterface:
+							work = append(work, y)
+						case *ssa.ChangeType:
+							work = append(work, y)
+						case *ssa.MakeClosure:
+							work = append(work, y)
+						}
+					}
+				}
+				return nil
+			}
+			for _, an := range initFn.AnonFuncs {
+				var g *ssa.Global
+				for _, b := range initFn.Blocks {
+					for _, in := range b.Instrs {
+						for _, op := range in.Operands(nil) {
+							if *op == ssa.Value(an) {
+								if v, ok := in.(ssa.Value); ok {
+									if gg := flowsTo(v); gg != nil {
+										g = gg
+									}
+								}
+								switch y := in.(type) {
+								case *ssa.MapUpdate:
+									if gg := flowsTo(y.Map); gg != nil {
+										g = gg
+									}
+								case *ssa.Store:
+									if gg, ok := y.Addr.(*ssa.Global); ok {
+										g = gg
+									} else {
+										a := y.Addr
+										for i := 0; i < 4; i++ {
+											switch z := a.(type) {
+											case *ssa.IndexAddr:
+												a = z.X
+												continue
+											case *ssa.FieldAddr:
+												a = z.X
+												continue
+											}
+											break
+										}
+										if gg := flowsTo(a); gg != nil {
+											g = gg
+										}
+									}
+								}
+							}
+						}
+					}
+				}
+				if g == nil || len(users[g]) == 0 {
+					continue
+				}
+				all := true
+				for _, u := range users[g] {
+					if !decoding[u] {
+						all = false
+					}
+				}
+				if all {
+					decoding[an] = true
+				}
+			}
+		}
+	}
 	for _, pk := range []string{"memdb", "server", "resp"} {
 		for _, fn := range c.P.allFuncs(pk) {
 			if byFn[fn] != nil || byFn[origin(fn)] != nil || decoding[fn] {
